@@ -2,6 +2,7 @@ package main
 
 import (
 	"go/ast"
+	"go/parser"
 	"go/constant"
 	"go/token"
 	"go/types"
@@ -19,6 +20,80 @@ var regAPIs = map[string]string{
 	"RegisterCertificateLint":    "cert",
 	"RegisterRevocationListLint": "crl",
 	"RegisterOcspResponseLint":   "ocsp",
+}
+
+// ExcludedReg is a registration call found (by plain parsing, ignoring build constraints) in a file the
+// default build does not compile: a name ending in _test.go (the go tool then treats the *implementation*
+// as a test file), a _GOOS/_GOARCH suffix, or a //go:build constraint. Such a lint is in the tree but
+// not in any default build.
+type ExcludedReg struct {
+	File   string `json:"file"`
+	API    string `json:"api"`
+	Name   string `json:"name"`
+	Reason string `json:"reason"`
+}
+
+// excludedRegistrations scans every .go file below v3/lints on disk.
+func excludedRegistrations(pkgs []*packages.Package, root string) {
+	compiled := map[string]bool{}
+	for _, p := range pkgs {
+		for _, f := range p.CompiledGoFiles {
+			compiled[f] = true
+		}
+		for _, f := range p.GoFiles {
+			compiled[f] = true
+		}
+	}
+	lintsDir := filepath.Join(root, "lints")
+	_ = filepath.Walk(lintsDir, func(path string, info os.FileInfo, err error) error {
+		if err != nil || info.IsDir() || !strings.HasSuffix(path, ".go") || compiled[path] {
+			return nil
+		}
+		if strings.Contains(path, string(filepath.Separator)+"testdata"+string(filepath.Separator)) {
+			return nil
+		}
+		fs := token.NewFileSet()
+		f, perr := parser.ParseFile(fs, path, nil, 0)
+		if perr != nil {
+			facts.Excluded = append(facts.Excluded, ExcludedReg{File: rel(path), Reason: "does not parse: " + perr.Error()})
+			return nil
+		}
+		ast.Inspect(f, func(n ast.Node) bool {
+			call, ok := n.(*ast.CallExpr)
+			if !ok {
+				return true
+			}
+			sel, ok := call.Fun.(*ast.SelectorExpr)
+			if !ok {
+				return true
+			}
+			if _, isReg := regAPIs[sel.Sel.Name]; !isReg {
+				return true
+			}
+			if x, ok := sel.X.(*ast.Ident); !ok || x.Name != "lint" {
+				return true
+			}
+			name := ""
+			ast.Inspect(call, func(m ast.Node) bool {
+				if kv, ok := m.(*ast.KeyValueExpr); ok {
+					if k, ok := kv.Key.(*ast.Ident); ok && k.Name == "Name" {
+						if bl, ok := kv.Value.(*ast.BasicLit); ok {
+							name, _ = strconv.Unquote(bl.Value)
+						}
+					}
+				}
+				return true
+			})
+			reason := "excluded from the default build by a build constraint or file-name suffix"
+			if strings.HasSuffix(path, "_test.go") {
+				reason = "file name ends in _test.go: compiled only into the package's test binary"
+			}
+			facts.Excluded = append(facts.Excluded, ExcludedReg{File: rel(path), API: sel.Sel.Name, Name: name, Reason: reason})
+			return true
+		})
+		return nil
+	})
+	sort.Slice(facts.Excluded, func(i, j int) bool { return facts.Excluded[i].File < facts.Excluded[j].File })
 }
 
 // census walks every non-test file of every package below v3/lints (and
